@@ -8,6 +8,8 @@ import (
 	"errsim/obs"
 	"errsim/tape"
 	"errsim/world"
+
+	"github.com/cockroachdb/errors"
 )
 
 // C01 — error text and cause-tree structure survive network transfer
@@ -36,6 +38,20 @@ func (c01) Run(t *tape.Tape, tier Tier) *Result {
 	}
 	g := gen.New(t, cfg)
 	spec := g.Tree()
+	special := ""
+	rate := 2000
+	if tier == Thorough {
+		rate = 500
+	}
+	if t.Draw(rate) == 7 {
+		// rarely: a very deep chain (depth guards, recursion limits); costly,
+		// since every layer's Error() renders the whole chain below it
+		spec = g.DeepChain(250 + t.Draw(60))
+		special = "deep"
+	}
+	if special == "deep" {
+		return runDeep(t, spec)
+	}
 	sim := world.NewSim(t)
 	nproc := 2 + t.Draw(5)
 	for i := 0; i < nproc; i++ {
@@ -48,6 +64,16 @@ func (c01) Run(t *tape.Tape, tier Tier) *Result {
 	res.Desc.Tree = spec.Expr()
 	res.Desc.Cluster = clusterDesc(sim)
 	res.Kinds = kindsOf(spec)
+	// an errno may come from a peer of another architecture: with
+	// probability 1/4 the first message is rewritten accordingly; text and
+	// shape must survive all the same (the receiver keeps an OpaqueErrno)
+	if spec.HasKind(func(k gen.Kind) bool { return k == gen.LErrno }) && t.Bool(1, 4) && p == "" {
+		if d2, n := world.ForeignArchErrno(m1); n > 0 {
+			m1 = d2
+			sim.Stats.Faults["errno-foreign-arch"] += n
+			res.Desc.Faults = append(res.Desc.Faults, "errno-foreign-arch")
+		}
+	}
 	if p != "" {
 		res.add(Violation{Prop: "C01", Oracle: "encode-at-origin", Culprit: typeOfLayer(want[0]), Expected: "no panic", Observed: p})
 		return res
@@ -131,4 +157,71 @@ func wireDiffCulprit(a, b []byte) string {
 		}
 	}
 	return culprit
+}
+
+// runDeep is the C01 scenario for a very deep chain, observed cheaply: the
+// number of layers, their Go types and the Error() text at the root and at
+// three sampled layers (rendering every layer of a chain this deep is cubic).
+func runDeep(t *tape.Tape, spec *gen.Node) *Result {
+	res := &Result{}
+	world.Full().Install()
+	e0 := gen.Build(spec)
+	type lite struct {
+		n     int
+		types string
+		texts []string
+	}
+	observe := func(e error) lite {
+		var l lite
+		var layers []error
+		for c := e; c != nil; c = errors.UnwrapOnce(c) {
+			layers = append(layers, c)
+		}
+		l.n = len(layers)
+		for i, c := range layers {
+			l.types += fmt.Sprintf("%T;", c)
+			if i == 0 || i == l.n/3 || i == 2*l.n/3 || i == l.n-1 {
+				c := c
+				l.texts = append(l.texts, obs.S(func() string { return c.Error() }))
+			}
+		}
+		return l
+	}
+	want := observe(e0)
+	res.Desc.Tree = fmt.Sprintf("deep chain of %d layers", want.n)
+	res.Kinds = kindsOf(spec)
+	data, p := obs.Encode(e0)
+	if p != "" {
+		res.add(Violation{Prop: "C01", Oracle: "encode-at-origin", Culprit: obs.PanicSite(p), Expected: "no panic", Observed: short(p)})
+		return res
+	}
+	for hop := 1; hop <= 3; hop++ {
+		e, p := obs.Decode(data)
+		if p != "" || e == nil {
+			res.add(Violation{Prop: "C01", Oracle: "decode", Culprit: obs.PanicSite(p), Expected: "decoded error", Observed: short(p), Where: fmt.Sprint("hop ", hop)})
+			return res
+		}
+		got := observe(e)
+		if got.n != want.n {
+			res.add(Violation{Prop: "C01", Oracle: "shape-after-hop", Culprit: "deep-chain", Expected: fmt.Sprint(want.n, " layers"), Observed: fmt.Sprint(got.n, " layers"), Where: fmt.Sprint("hop ", hop)})
+		} else if fmt.Sprintf("%q", got.texts) != fmt.Sprintf("%q", want.texts) {
+			res.add(Violation{Prop: "C01", Oracle: "text-after-hop", Culprit: "deep-chain", Expected: short(fmt.Sprintf("%q", want.texts)), Observed: short(fmt.Sprintf("%q", got.texts)), Where: fmt.Sprint("hop ", hop)})
+		}
+		next, p2 := obs.Encode(e)
+		if p2 != "" {
+			res.add(Violation{Prop: "C01", Oracle: "re-encode", Culprit: obs.PanicSite(p2), Expected: "no panic", Observed: short(p2), Where: fmt.Sprint("hop ", hop)})
+			return res
+		}
+		if hop >= 2 && !bytes.Equal(next, data) {
+			res.add(Violation{Prop: "C01", Oracle: "wire-drift", Culprit: "deep-chain", Expected: "identical bytes", Observed: "differs", Where: fmt.Sprint("hop ", hop)})
+		}
+		data = next
+	}
+	res.Stats.Faults = map[string]int{}
+	res.Stats.Deliveries = 3
+	res.count("deep-chains", 1)
+	res.Nontrivial = true
+	res.Key = fmt.Sprintf("deep|%d", want.n)
+	res.LogDigest = fmt.Sprint(want.n)
+	return res
 }
